@@ -2,7 +2,7 @@
 import gen_common
 import par_common
 
-DEP_FILES = ["FlowSemModel.v", "FlowOpModel.v", "FlowOpProofs.v", "ParallelModel.v"]
+DEP_FILES = ["FlowSemModel.v", "FlowOpModel.v", "FlowOpProofs.v", "FlowBridge.v", "ParallelModel.v", "ParallelProofs.v"]
 PID = "C10"
 
 
